@@ -15,7 +15,7 @@ META = {
     "rule": "graphs = every well-posed member of F(3, m<=2) incl. custom unary/ternary edges + SLAM families n=3 (thorough: 6); representation changes R enumerated completely per graph: "
     "every vertex-list permutation (fixed flags travel), every edge-list permutation (m<=4, else reversal/rotation), every injective id relabeling from a 4-id (thorough 6-id) pool incl. "
     "negative/huge ids, theta -> theta + 2 pi k (k in +-1, +-2, 3, -5) on every single SE(2) vertex / measurement / offset and on all at once, EVERY sign pattern of quaternion negation over all "
-    "SE(3) vertices, measurements and offsets (2^q, q<=8), every subset of edges split into two half-information edges, information scaling c in {1e-6, 1e-3, 0.5, 2, 1e3}. At every state of the "
+    "SE(3) vertices, measurements and offsets (2^q, q<=8), every subset of edges split into two half-information edges, information scaling c in {1e-12, 1e-6, 1e-3, 0.5, 2, 1e3}. At every state of the "
     "trajectory x_{k+1} = GN(x_k): chi2(R(x)) = c chi2(x) and GN(R(x)) = R(GN(x)). non-trivial = R is not the identity and the step moves a vertex",
     "assumptions": ["finite graph family; information matrices have translation-rotation cross terms", "tolerance 1e-9 scaled; ill-conditioned states end the trajectory (counted)"],
     "required_classes": ["R:vertex_perm", "R:edge_perm", "R:relabel", "R:angle_2pi", "R:quat_sign", "R:split", "R:scale", "kind:SE2", "kind:SE3", "custom_edges", "slam_family", "shape_family", "cross_term_information"],
@@ -195,7 +195,7 @@ def reps_for(spec, tier):
             out.append(("split", Split(mask)))
     else:
         out += [("split", Split(2 ** m - 1)), ("split", Split(1)), ("split", Split(int("10" * m, 2) & (2 ** m - 1)))]
-    for c in (1e-6, 1e-3, 0.5, 2.0, 1e3):
+    for c in (1e-12, 1e-6, 1e-3, 0.5, 2.0, 1e3):
         out.append(("scale", Scale(c)))
     return out
 
